@@ -864,8 +864,11 @@ impl Stdfs {
     /// assert_vfs_remove_all!(vfs, &tmpdir);
     /// ```
     pub fn is_dir<T: AsRef<Path>>(path: T) -> bool {
-        match fs::symlink_metadata(path.as_ref()) {
-            Ok(x) => !x.file_type().is_symlink() && x.is_dir(),
+        match Stdfs::abs(path) {
+            Ok(abs) => match fs::symlink_metadata(abs) {
+                Ok(x) => !x.file_type().is_symlink() && x.is_dir(),
+                _ => false,
+            },
             _ => false,
         }
     }
@@ -887,8 +890,11 @@ impl Stdfs {
     /// assert_vfs_remove_all!(vfs, &tmpdir);
     /// ```
     pub fn is_file<T: AsRef<Path>>(path: T) -> bool {
-        match fs::symlink_metadata(path.as_ref()) {
-            Ok(x) => !x.file_type().is_symlink() && x.is_file(),
+        match Stdfs::abs(path) {
+            Ok(abs) => match fs::symlink_metadata(abs) {
+                Ok(x) => !x.file_type().is_symlink() && x.is_file(),
+                _ => false,
+            },
             _ => false,
         }
     }
